@@ -312,9 +312,13 @@ func C06(c *runner.Cfg) *report.Result {
 			go func() { x.d.client(func() (mpx.Channel, status.Status) { return conn.Channel(noCtx) }, p); close(done) }()
 			select {
 			case <-done:
+				x.d.settlePlans([]*chanPlan{p}, Watchdog/2)
 			case <-time.After(Watchdog):
 				res.Violate("c06:connection-unusable", fmt.Sprintf("connection %d: a fresh channel did not complete after the victims ended", ci), nil)
 			}
+		}
+		if !x.d.aborted.Load() && !conn.Closed().IsSet() {
+			x.d.settlePlans(wplans, Watchdog/2) // do not cut frames that are still queued
 		}
 		for _, p := range victims {
 			x.victims.Delete(p.id)
